@@ -84,8 +84,9 @@ class VerifierModel:
                     if isinstance(r, tuple) and r and r[0] == "struct" and r[2] == "Err":
                         rej.append(atoms)
                         continue
-                unrec.append("unexpected exit %r" % (s.exit[0],))
-                continue
+                if s.exit[0] != "continue":     # `continue` ends the iteration like falling off the body
+                    unrec.append("unexpected exit %r" % (s.exit[0],))
+                    continue
             pcv = s.env.get((self.lm.ev.owner_of(self.fn), self.pcid))
             acc.append((atoms, self.canon(pcv) if pcv is not None else None))
         r = {"accept": acc, "reject": rej, "unrec": unrec}
